@@ -222,11 +222,12 @@ Drift(q, calls, rep) ==
 
 (* ---------------- control operations ---------------- *)
 InitCalls(ev) == SelectSeq(ev.calls, LAMBDA c : c.m = "init")
+InitOk(ev) == "init_ok" \notin DOMAIN ev \/ ev.init_ok       \* the backend's init() does not fail
 JudgeMount(ev) ==
   Cat(<<
     F(ev.ret # "panic", "C07|mount|panic", ev.path),
     IF ev.ret = "ok" THEN F(AMountPre(ev.idx), "C07|mount|index-zero-or-occupied", <<ev.idx, ev.path>>)
-    ELSE F(AMountFailPre(ev.abs, ev.backend_ok), "C07|mount|refused-with-free-index", ev.path),
+    ELSE F(AMountFailPre(ev.abs, ev.backend_ok /\ (InitOk(ev) \/ ~inited)), "C07|mount|refused-with-free-index", ev.path),
     \* a backend mounted after INIT is initialised with the negotiated options, before INIT it is not
     IF ev.ret = "ok" THEN
        IF inited THEN F(Len(InitCalls(ev)) = 1 /\ InitCalls(ev)[1].capable = negopt,
@@ -245,10 +246,13 @@ JudgeRemount(ev) ==
     F(ev.ret # "panic", "C07|remount|panic", ev.path),
     IF ev.ret = "ok" THEN F(ARemountPre(ev.abs, ev.comps, ev.idx), "C07|remount|accepted-for-a-path-not-mounted-at-that-index", <<ev.path, ev.idx>>)
     ELSE F(~ARemountPre(ev.abs, ev.comps, ev.idx), "C07|remount|re-attach-in-place-refused", <<ev.path, ev.idx>>) >>)
+Refuses(ev) == "backend_refuses" \in DOMAIN ev /\ ev.backend_refuses
 JudgeInit(ev) ==
   Cat(<<
     IF ev.status = 0 THEN F(AInitPre, "C19|init|second-init-accepted" \o (IF negopt = "0" THEN "|first-init-offered-no-capability" ELSE ""), ev.opts)
-    ELSE F(~AInitPre, "C19|init|first-init-refused", ev.status),
+    ELSE F(~AInitPre \/ Refuses(ev), "C19|init|first-init-refused", ev.status),
+    \* Vfs::init gives up at the first backend whose init() fails
+    IF ev.status = 0 /\ AInitPre THEN F(~Refuses(ev), "C19|init|accepted-although-a-mounted-backend-refuses", ev.opts) ELSE <<>>,
     IF Has(ev, "pred") THEN FD(ev.pred.ok = (ev.status = 0), "DRIFT|init|result", ev.status) ELSE <<>> >>)
 
 (* ---------------- plumbing ---------------- *)
@@ -349,7 +353,9 @@ StepInit(r) ==
   \E fs \in {JudgeInit(r)} : \E out \in {[status |-> r.status, opts |-> r.opts]} :
      /\ PrintAll(Report(r.k, "init", out, fs))
      /\ Remember(r.k, out, fs)
-     /\ IF r.status = 0 /\ AInitPre THEN AInitEff(r.opts, r.zmo, r.zmod) ELSE UNCHANGED avars
+     /\ IF r.status = 0 /\ AInitPre THEN AInitEff(r.opts, r.zmo, r.zmod)
+        ELSE IF r.status # 0 /\ AInitPre /\ Refuses(r) THEN AInitRefusedEff(r.zmo, r.zmod)
+        ELSE UNCHANGED avars
      /\ UNCHANGED <<segkind, after, left, strays, rmroot>> /\ l' = l + 1
 
 StepSaveRestore(r) ==
